@@ -18,6 +18,14 @@ Ops
   cmp                              per block id of either store: checksums of store 0 vs 1 -> b:eq b:ne b:only0 b:only1
   diff <S> <S'>                    attrBlocks(Blocks(S)).Diff(Blocks(S'))    -> csv | -
   rawdiff <blocks> <blocks>        Diff on literal sorted lists id:cs,id:cs (or _)  -> csv | -
+Stores 2 and 3 are the row attribute store of field f and the column attribute store of an index of
+an in-process server; besides the ops above (no reopen) they are reached through PQL:
+  erow <id> <attrs>                SetRowAttrs(f, id, ...) next to another call (single path) -> ok
+  ebulk <id>:<attrs>|...           a query of SetRowAttrs calls only (bulk path), distinct ids -> ok
+  ecol <id> <attrs>                SetColumnAttrs(id, ...)                                    -> ok
+  erowget <id>                     Row(f=id): the attributes of the result; handle #k like get -> attrs
+  ediff <S> <T>                    S in {2,3}: Field/IndexAttrDiff with the blocks of store T  -> id{attrs} ... | -
+  e2e attrs: keys [a-z]+, values i<int> s<hex of [a-z0-9]+> b0 b1 f3ff8000000000000 fc002000000000000 ~
 `#spec` carries the answer of Spec (finite maps, no cache / heap / cursor).
 -/
 import PV.Common.Proto
@@ -124,8 +132,8 @@ def showBData (xs : List (Nat × AttrMap)) : String :=
   if xs = [] then "-" else " ".intercalate (xs.map (fun e => toString e.1 ++ "{" ++ showAttrs e.2 ++ "}"))
 
 structure St where
-  w : World := World.init 2
-  sp : List Spec.SMap := [[], []]
+  w : World := World.init 4
+  sp : List Spec.SMap := [[], [], [], []]
 
 def St.spec (st : St) (i : Nat) : Spec.SMap := st.sp.getD i []
 
@@ -160,6 +168,19 @@ def parseRaw (s : String) : Option (List (Block Nat)) :=
 def specRawDiff (a b : List (Block Nat)) : List Nat :=
   (a.filter (fun x => !(b.any (fun y => y.id = x.id ∧ y.checksum = x.checksum)))).map (·.id)
 
+/-- what PQL can express and re-read unambiguously -/
+def e2eOK (m : List (Nat × InVal)) : Bool :=
+  m ≠ [] && m.all (fun kv =>
+    let key := natKey kv.1
+    key ≠ [] && key.all (fun b => 97 ≤ b && b ≤ 122) &&
+    (match kv.2 with
+     | .nil => true
+     | .bool _ => true
+     | .int64 _ => true
+     | .float f => f = 0x3ff8000000000000 || f = 0xc002000000000000
+     | .str s => s ≠ [] && s.all (fun b => (97 ≤ b && b ≤ 122) || (48 ≤ b && b ≤ 57))
+     | _ => false))
+
 def step (st : St) (ws : List String) : St × Ans :=
   let bad := (st, ans "bad-op")
   let okS (b : Bool) := if b then "ok" else "err:type"
@@ -167,7 +188,7 @@ def step (st : St) (ws : List String) : St × Ans :=
   | ["set", s, id, a] =>
     match s.toNat?, id.toNat?, parseAttrs a with
     | some s, some id, some m =>
-      if s > 1 then bad else
+      if s > 3 then bad else
       let (w', ok) := setAttrs st.w s id m
       let (sp', sok) := Spec.set (st.spec s) id m
       ({ w := w', sp := st.sp.set s sp' }, ans2 (okS ok) (okS sok) "set")
@@ -175,7 +196,7 @@ def step (st : St) (ws : List String) : St × Ans :=
   | ["bulk", s, b] =>
     match s.toNat?, parseBulk b with
     | some s, some m =>
-      if s > 1 then bad else
+      if s > 3 then bad else
       let (w', ok) := setBulkAttrs st.w s m
       let (sp', sok) := Spec.bulk (st.spec s) m
       ({ w := w', sp := st.sp.set s sp' }, ans2 (okS ok) (okS sok) "bulk")
@@ -183,7 +204,7 @@ def step (st : St) (ws : List String) : St × Ans :=
   | ["get", s, id] =>
     match s.toNat?, id.toNat? with
     | some s, some id =>
-      if s > 1 then bad else
+      if s > 3 then bad else
       let (w', h) := attrs st.w s id
       ({ st with w := w' }, ans2 (showAttrs (w'.obj h)) (showAttrs (Spec.get (st.spec s) id)) "get")
     | _, _ => bad
@@ -209,13 +230,13 @@ def step (st : St) (ws : List String) : St × Ans :=
   | ["blocks", s] =>
     match s.toNat? with
     | some s =>
-      if s > 1 then bad else
+      if s > 3 then bad else
       (st, ans2 (showCsv ((blocks Hid (st.w.store s).db).map (·.id))) (showCsv (Spec.blockIds (st.spec s))) "blocks")
     | none => bad
   | ["bdata", s, i] =>
     match s.toNat?, i.toNat? with
     | some s, some i =>
-      if s > 1 then bad else
+      if s > 3 then bad else
       (st, ans2 (showBData (blockData (st.w.store s).db i)) (showBData (Spec.blockData (st.spec s) i)) "blockdata")
     | _, _ => bad
   | ["cmp"] =>
@@ -227,7 +248,7 @@ def step (st : St) (ws : List String) : St × Ans :=
   | ["diff", a, b] =>
     match a.toNat?, b.toNat? with
     | some a, some b =>
-      if a > 1 ∨ b > 1 then bad else
+      if a > 3 ∨ b > 3 then bad else
       (st, ans2 (showCsv (diff (blocks Hid (st.w.store a).db) (blocks Hid (st.w.store b).db)))
                 (showCsv (Spec.diff (st.spec a) (st.spec b))) "diff")
     | _, _ => bad
@@ -235,6 +256,42 @@ def step (st : St) (ws : List String) : St × Ans :=
     match parseRaw a, parseRaw b with
     | some a, some b => (st, ans2 (showCsv (diff a b)) (showCsv (specRawDiff a b)) "rawdiff")
     | _, _ => bad
+  | [op, id, a] =>
+    if op ≠ "erow" ∧ op ≠ "ecol" ∧ op ≠ "ediff" then bad else
+    if op = "ediff" then
+      match id.toNat?, a.toNat? with
+      | some s, some t =>
+        if (s ≠ 2 ∧ s ≠ 3) ∨ t > 3 then bad else
+        let db := (st.w.store s).db
+        let ids := diff (blocks Hid db) (blocks Hid (st.w.store t).db)
+        let sids := Spec.diff (st.spec s) (st.spec t)
+        (st, ans2 (showBData (ids.flatMap (fun i => blockData db i)))
+                  (showBData (sids.flatMap (fun i => Spec.blockData (st.spec s) i))) "attrdiff")
+      | _, _ => bad
+    else
+    match id.toNat?, parseAttrs a with
+    | some id, some m =>
+      if !e2eOK m ∨ id ≥ 2 ^ 62 then bad else
+      let s := if op = "erow" then 2 else 3
+      let (w', ok) := setAttrs st.w s id m
+      let (sp', sok) := Spec.set (st.spec s) id m
+      ({ w := w', sp := st.sp.set s sp' }, ans2 (okS ok) (okS sok) op)
+    | _, _ => bad
+  | ["ebulk", b] =>
+    match parseBulk b with
+    | some m =>
+      if !m.all (fun p => e2eOK p.2 && p.1 < 2 ^ 62) then bad else
+      let (w', ok) := setBulkAttrs st.w 2 m
+      let (sp', sok) := Spec.bulk (st.spec 2) m
+      ({ w := w', sp := st.sp.set 2 sp' }, ans2 (okS ok) (okS sok) "ebulk")
+    | none => bad
+  | ["erowget", id] =>
+    match id.toNat? with
+    | some id =>
+      if id ≥ 2 ^ 62 then bad else
+      let (w', h) := attrs st.w 2 id
+      ({ st with w := w' }, ans2 (showAttrs (w'.obj h)) (showAttrs (Spec.get (st.spec 2) id)) "erowget")
+    | none => bad
   | _ => bad
 
 def main : IO Unit := run ({} : St) step
